@@ -596,6 +596,69 @@ def parse (K : Classes) (text : List Char) : Option (List ASection) :=
     | .ok p => walkProg p
 
 
+/-! ### the renderer -/
+
+def Tok.text : Tok → List Char
+  | .comma => [','] | .lbrace => ['{'] | .rbrace => ['}'] | .colon => [':'] | .lbrack => ['[']
+  | .rbrack => [']'] | .bang => ['!'] | .lparen => ['('] | .rparen => [')']
+  | .arrow => ['-', '>'] | .andand => ['&', '&']
+  | .id s => s | .nonId s => s
+  | .quote q s => q :: (s ++ [q])
+
+/-- tokens with the text written after each of them (whitespace, comments, or nothing) -/
+def renderToks : List (Tok × List Char) → List Char
+  | [] => []
+  | (t, sep) :: rest => t.text ++ (sep ++ renderToks rest)
+
+/-- the canonical printer: one space after every token -/
+def render (p : Prog) : List Char := renderToks ((progToks p).map fun t => (t, [' ']))
+
+/-- hypotheses on the probed character table under which `scan`'s decision tree is ANTLR's
+longest-match / first-rule choice and the renderer is safe.  Checked on the probed table by the
+driver at run time (`Classes.wfCheck`). -/
+structure Classes.WF (K : Classes) : Prop where
+  ws_not_safe : ∀ c, K.ws c = true → K.safe c = false
+  /-- punctuation, quotes, `&`, `>` are neither word characters nor whitespace -/
+  special : ∀ c ∈ [',', '{', '}', ':', '[', ']', '(', ')', '&', '"', '\'', '>'], K.safe c = false ∧ K.ws c = false
+  /-- `!`, `#` may occur inside words but never start one; `-`, `/`, `*` never start an ID -/
+  nohead : ∀ c ∈ ['!', '#', '-', '/', '*'], K.idHead c = false ∧ K.ws c = false
+  bang_hash_nonid : K.nonIdHead '!' = false ∧ K.nonIdHead '#' = false
+  nl_ws : K.ws '\n' = true ∧ K.ws '\r' = true
+
+/-- no unescaped closing quote inside, and the body does not end in a backslash -/
+def quoteBodyOK (q : Char) : (prevBackslash : Bool) → List Char → Bool
+  | pb, [] => !pb
+  | pb, c :: cs => if c = q then pb && quoteBodyOK q false cs else quoteBodyOK q (c = '\\') cs
+
+/-- a token the lexer reads back as itself -/
+def TokOK (K : Classes) : Tok → Prop
+  | .id s => ∃ c r, s = c :: r ∧ K.idHead c = true ∧ r.all K.safe = true
+  | .nonId s => ∃ c r, s = c :: r ∧ K.nonIdHead c = true ∧ r.all K.safe = true ∧
+      -- a word starting with `/*` must contain its `*/` strictly inside (else it is a comment)
+      (c = '/' → ∀ r', r = '*' :: r' → ∃ e, blockEnd r' = some e ∧ e < r'.length)
+  | .quote q s => (q = '"' ∨ q = '\'') ∧ quoteBodyOK q false s = true
+  | _ => True
+
+def Tok.isWord : Tok → Bool
+  | .id _ => true | .nonId _ => true | _ => false
+
+/-- what may directly follow a bare word -/
+def wordEnd (K : Classes) : List Char → Prop
+  | [] => True
+  | c :: _ => K.safe c = false ∧ c ≠ '>' ∧ c ≠ '*'
+
+/-- text the lexer skips completely, whatever follows it -/
+def Skips (K : Classes) (s : List Char) : Prop := ∀ rest, lex K (s ++ rest) = lex K rest
+
+/-- the text after token `t`: nothing (allowed when `t` is closed by itself or the next text
+cannot extend it), or skipped text that starts with a whitespace character -/
+def SepOK (K : Classes) (t : Tok) (sep next : List Char) : Prop :=
+  (sep = [] ∧ (t.isWord = true → wordEnd K next)) ∨ (Skips K sep ∧ ∃ w r, sep = w :: r ∧ K.ws w = true)
+
+def SepsOK (K : Classes) : List (Tok × List Char) → Prop
+  | [] => True
+  | (t, sep) :: rest => SepOK K t sep (renderToks rest) ∧ SepsOK K rest
+
 /-! ## 3. Include merging over an abstract file system -/
 
 /-- `Param.String(compact = true, quoteVal = false)` for a function/annotation parameter -/
